@@ -176,6 +176,39 @@ pub fn android_parse(img: &[u8]) -> Option<Vec<(String, Option<Vec<u8>>)>> {
     Some(out)
 }
 
+/// Where (absolute offset, length) the index of `img` says the blob of
+/// `name` is. `Err(())`: not a usable container; `Ok(None)`: no such entry.
+pub fn android_locate(img: &[u8], name: &str) -> Result<Option<(usize, usize)>, ()> {
+    if img.len() < 24 || &img[..6] != b"tzdata" || img[11] != 0 {
+        return Err(());
+    }
+    if std::str::from_utf8(&img[6..11]).is_err() {
+        return Err(());
+    }
+    let rd = |o: usize| -> u32 {
+        u32::from_be_bytes([img[o], img[o + 1], img[o + 2], img[o + 3]])
+    };
+    let index_off = rd(12) as usize;
+    let data_off = rd(16) as usize;
+    if index_off > data_off || (data_off - index_off) % 52 != 0 || data_off > img.len() {
+        return Err(());
+    }
+    let mut o = index_off;
+    while o < data_off {
+        let mut nm = &img[o..o + 40];
+        while nm.last() == Some(&0) {
+            nm = &nm[..nm.len() - 1];
+        }
+        if nm.eq_ignore_ascii_case(name.as_bytes()) {
+            let start = rd(o + 40) as usize;
+            let len = rd(o + 44) as usize;
+            return Ok(Some((data_off.saturating_add(start), len)));
+        }
+        o += 52;
+    }
+    Ok(None)
+}
+
 /// Start-up self check of the generators against jiff's parser. An error
 /// here is a harness error (exit 2), never a violation.
 pub fn self_check() -> Result<(), String> {
